@@ -27,6 +27,10 @@ CASES = {
     "GrandCanonical+ExchangeMove": dict(driver="quansino.mc.gcmc.GrandCanonical", move="exchange"),
     "GrandCanonical+ExchangeMove[FixAtoms]": dict(driver="quansino.mc.gcmc.GrandCanonical", move="exchange", constraints=("FixAtoms",), extra=()),
     "GrandCanonical+ExchangeMove[template has an extra array]": dict(driver="quansino.mc.gcmc.GrandCanonical", move="exchange", extra=(), template_extra=(("tags", (), "int"),)),
+    # the same with the attempt loops EXECUTED (two attempts) instead of abstracted by an invariant: bounded in the number of
+    # attempts, but independent of how the loop is written (a lazily undone attempt does not satisfy the invariant chosen above)
+    "Canonical+DisplacementMove[attempt loop unrolled, max_attempts=2]": dict(driver="quansino.mc.canonical.Canonical", move="disp", constraints=("FixAtoms",), unroll=2),
+    "Isobaric+CellMove[attempt loop unrolled, max_attempts=2]": dict(driver="quansino.mc.isobaric.Isobaric", move="cell", kw={"pressure": None}, constraints=("FixAtoms",), unroll=2),
     "GrandCanonical[HamiltonianExchangeContext]+ExchangeMove": dict(driver="quansino.mc.gcmc.GrandCanonical", move="exchange", context="quansino.mc.contexts.HamiltonianExchangeContext"),
     "HamiltonianCanonical+HamiltonianDisplacementMove": dict(driver="quansino.mc.canonical.HamiltonianCanonical", move="hamiltonian"),
 }
@@ -115,6 +119,11 @@ def make_sim(I, case):
         top.attrs["check_move"] = checker(I, [])
         top.attrs["max_attempts"] = 2
         moves.append(top)
+    if case.get("unroll"):
+        for key_ in [k_ for k_ in I.loop_contracts if k_[0].endswith(("attempt_displacement", "attempt_deformation"))]:
+            del I.loop_contracts[key_]
+        for m_ in moves:
+            m_.attrs["max_attempts"] = case["unroll"]
     I.call(I.getattr(sim, "add_move"), [top], {"name": "m", "criteria": ContractCriteria(total_energy=total)})
     I.call(I.getattr(sim, "validate_simulation"), [], {})
     return sim, atoms, moves, top
